@@ -145,7 +145,11 @@ OfferViol(St, o) ==
     (IF C18_NoDead(St, o.res) THEN {} ELSE {<<"frontier", "C18_NoDead">>}) \cup
     (IF C18_ScheduledOnlyIfRetract(St, o.res, o.ret, o.pre) THEN {} ELSE {<<"frontier", "C18_ScheduledOnlyIfRetract">>}) \cup
     (IF C18_RunningOnlyIfPreempt(St, o.res, o.pre) THEN {} ELSE {<<"frontier", "C18_RunningOnlyIfPreempt">>}) \cup
-    (IF World.fl.no_plan_ahead => C18_ParentsDone(St, o.res, o.la, o.rtg) THEN {} ELSE {<<"frontier", "C18_ParentsDone">>}) \cup
+    (IF ~World.fl.no_plan_ahead THEN {}
+     ELSE LET off == C18_ParentsDoneOffenders(St, o.res, o.la, o.rtg) IN
+          (IF \E t \in off : ~OverduePlacementInGraph(St, GraphOf(St, t), o.tm) THEN {<<"frontier", "C18_ParentsDone">>} ELSE {}) \cup
+          (IF \E t \in off : OverduePlacementInGraph(St, GraphOf(St, t), o.tm)
+           THEN {<<"frontier", "C18_ParentsDone_after_deferred_placement">>} ELSE {})) \cup
     (IF C18_NoDuplicates(o.res) THEN {} ELSE {<<"frontier", "C18_NoDuplicates">>}) \cup
     (IF ~o.pre /\ FrontierDeterministic(St, o.pol) /\ Schedulable(St, o.tm, o.la, o.ret, o.rtg) # o.res
      THEN {<<"frontier", "C18_Exact">>} ELSE {}) \cup
